@@ -234,7 +234,7 @@ func sign(c int) int {
 // ---------------------------------------------------------------------------------------------
 
 type sink struct {
-	r      *report.Run
+	r          *report.Run
 	perSig     map[string]int
 	perVariant map[string]int
 	written    map[string]int
@@ -427,16 +427,16 @@ func b2s(b bool, s string) string {
 // ---------------------------------------------------------------------------------------------
 
 type storeCase struct {
-	name      string
-	kind      string  // "store-indexspec" | "store-default"
-	spec      specDef // index spec (store-indexspec) / field list (store-default, all fields compared)
-	profile   string  // e.g. "number+null" (fingerprint)
-	sigClass  string  // input class of the signature, see storeSigClass
-	k1, k2    []key   // added by opening 1 / opening 2
-	probe2    []int   // order in which opening 2 looks up k1
-	probe3    []int   // order in which opening 3 looks up k1+k2
-	slot      int
-	mixed     bool
+	name     string
+	kind     string  // "store-indexspec" | "store-default"
+	spec     specDef // index spec (store-indexspec) / field list (store-default, all fields compared)
+	profile  string  // e.g. "number+null" (fingerprint)
+	sigClass string  // input class of the signature, see storeSigClass
+	k1, k2   []key   // added by opening 1 / opening 2
+	probe2   []int   // order in which opening 2 looks up k1
+	probe3   []int   // order in which opening 3 looks up k1+k2
+	slot     int
+	mixed    bool
 }
 
 // storeSigClass: the input class used in store-level signatures. An index specification cannot tell a
